@@ -11,6 +11,7 @@ use std::sync::Arc;
 use sv_parser::SyntaxTree;
 
 pub struct SvSpace {
+    pub rule_defaults: Arc<Vec<(String, Vec<It>)>>,
     pub sentences: Space<(String, Vec<It>)>,
     pub pairs: Space<(String, Vec<It>)>,
     pub capped_rules: Vec<String>,
@@ -22,7 +23,7 @@ pub fn sv_space() -> SvSpace {
     let mut g = Gen::new(svgen::grammar_text());
     let sentences = g.sentences();
     let pairs = g.pairs();
-    SvSpace { sentences, pairs, capped_rules: g.capped_rules.clone(), rules: g.g.rules.len(), rules_reached: g.contexts.iter().filter(|c| c.is_some()).count() }
+    SvSpace { rule_defaults: Arc::new(g.rule_defaults()), sentences, pairs, capped_rules: g.capped_rules.clone(), rules: g.g.rules.len(), rules_reached: g.contexts.iter().filter(|c| c.is_some()).count() }
 }
 
 /// rendered sentences of both enumerations (layout and identifier pool rotate with the index)
@@ -209,7 +210,11 @@ pub fn judge(tree: &SyntaxTree, ix: &TreeIndex, s: &Sentence, kw: &HashSet<&'sta
 }
 
 fn one(acc: &mut Acc, rule: &str, items: &[It], layout: &str, pool: usize, kw: &HashSet<&'static str>) {
-    let s = svgen::render(items, layout, pool);
+    one_with(acc, rule, items, layout, pool, kw, None)
+}
+
+fn one_with(acc: &mut Acc, rule: &str, items: &[It], layout: &str, pool: usize, kw: &HashSet<&'static str>, over: Option<(usize, &str)>) {
+    let s = svgen::render_with(items, layout, pool, over);
     acc.transitions += 1;
     acc.set_insert("rules_exercised", rule);
     let case = || json!({"rule": rule, "layout": layout, "identifier_pool": ADVERSARIAL[pool % ADVERSARIAL.len()], "source": s.text});
@@ -302,6 +307,35 @@ pub fn build(tier: Tier) -> Check<'static> {
             let (idx, layout) = if full { (i / nl, (i % nl) as usize) } else { (i, (i % nl) as usize) };
             let (rule, items) = s.get(idx);
             one(acc, &rule, &items, LAYOUTS[layout], 0, &kw);
+        }));
+    }
+    {
+        // every identifier slot of every rule's default sentence x every reserved word + suffix
+        let defs = sp.rule_defaults.clone();
+        let mut slots: Vec<(usize, usize)> = vec![];
+        for (ri, (_, items)) in defs.iter().enumerate() {
+            for k in 1..=svgen::binding_count(items) {
+                slots.push((ri, k));
+            }
+        }
+        let slots = Arc::new(slots);
+        let mut words: Vec<&'static str> = kw.iter().copied().collect();
+        words.sort();
+        let words = Arc::new(words);
+        let suffixes: Vec<&'static str> = if tier == Tier::Thorough { vec!["1", "_", "$x", "x"] } else { vec!["1", "_"] };
+        let (nw, ns) = (words.len() as u64, suffixes.len() as u64);
+        let n = slots.len() as u64 * nw * ns;
+        let kw2 = kw.clone();
+        c.parts.push(Part::new("keyword-prefixed-identifiers", n, "every identifier slot of every rule's default sentence x each of the 248 reserved words x suffix {1, _} (thorough: {1, _, $x, x}): the name is an identifier, never a keyword followed by something", move |i, acc| {
+            let (ri, k) = slots[(i / (nw * ns)) as usize];
+            let w = words[((i / ns) % nw) as usize];
+            let name = format!("{}{}", w, suffixes[(i % ns) as usize]);
+            if kw2.contains(name.as_str()) {
+                acc.class("name-is-itself-reserved");
+                return;
+            }
+            let (rule, items) = &defs[ri];
+            one_with(acc, rule, items, " ", 0, &kw2, Some((k, &name)));
         }));
     }
     c
